@@ -55,7 +55,15 @@ def get_map(mapid):
         return None
     if mapid not in _MAPS:
         m = DeviceInstanceTypeMapper()
-        if mapid > 0:
+        if mapid >= 100:
+            # sparse, heterogeneous maps: per device one or two instances with different types (C01: decoding under such
+            # a map is still total and bit-identical for every event scheme)
+            for s in range(64):
+                if mapid == 100 or s % 3:
+                    m.add_type(short_address=s, instance_number=s % 32, instance_type=[1, 3, 4, 2][s % 4])
+                if mapid == 101:
+                    m.add_type(short_address=s, instance_number=(s + 7) % 32, instance_type=[4, 1, 31, 3][s % 4])
+        elif mapid > 0:
             for s in range(64):
                 for n in range(32):
                     m.add_type(short_address=s, instance_number=n, instance_type=mapid - 1)
